@@ -51,6 +51,19 @@ def run(F, res, tier):
         sum(1 for e in EF.field_effects(wd, AN) if e["field"] == "db")
     res.ob("K1", "with_db/db-inside-catch", "the database is dereferenced inside the closure given to Cancelled::catch",
            len(inner) >= 1 and touches >= 1, where=wd.loc(), how="closures %d, accesses to self.db %d" % (len(inner), touches))
+    # nothing between a query and Cancelled::catch may catch unwinds: salsa delivers cancellation by unwinding
+    roots = [f.path for f in pub]
+    reach = F.reachable_from(roots)
+    catchers = []
+    for p_ in reach:
+        if not p_.startswith(("ide::", "<ide::", "syntax::", "<syntax::")):
+            continue
+        for b, t in F.fns[p_].calls():
+            c = callee(t) or callee_def(t) or ""
+            if c.endswith("panic::catch_unwind") or c.endswith("panicking::try") or c.endswith("panicking::catch_unwind"):
+                catchers.append((p_, t["ln"]))
+    res.ob("K1", "no-unwind-catcher-in-queries", "no code reachable from a query catches unwinds (it would swallow salsa's Cancelled and turn a cancelled query into a partial answer)",
+           not catchers, where="crates/ide/src", how="%d reachable functions scanned" % len(reach) if not catchers else str(catchers[:3]))
     a = F.adt(AN)
     flds = [(x["name"], x["ty"]) for x in a["variants"][0]["fields"]]
     res.ob("K2", "analysis-is-snapshot", "Analysis consists of exactly one field: a salsa::Snapshot of the database",
@@ -65,6 +78,9 @@ def run(F, res, tier):
     ap = [b for b, t in ac.calls() if callee(t) == "ide::base::Change::apply"]
     res.ob("K2", "cancel-before-write", "apply_change requests cancellation before it writes the inputs",
            len(rc) == 1 and len(ap) == 1 and ac.dominates(rc[0], ap[0]), where=ac.loc(), how="request_cancellation %d, Change::apply %d" % (len(rc), len(ap)))
+    unconditional, how = apply_unconditional(F)
+    res.ob("K2", "apply-on-every-path", "apply_change writes the inputs on every path (a change is never silently dropped)", unconditional,
+           where=ac.loc(), how=how)
     rq = F.fn("ide::ide::AnalysisHost::request_cancellation")
     sw = [c for c in (callee(t) or callee_def(t) for b, t in rq.calls()) if (c or "").endswith("synthetic_write")]
     res.ob("K2", "cancellation-is-synthetic-write", "request_cancellation performs a salsa synthetic write (which cancels running queries)",
@@ -93,3 +109,22 @@ def run(F, res, tier):
            how="is::<Cancelled> sites %d, later downcasts %d" % (len(is_c), len(others)))
     res.ob("K3", "maps-to-request-cancelled", "a Cancelled error becomes ErrorCode::REQUEST_CANCELLED", code_ok, where=er.loc(),
            how="constant %s" % res.analysed.get("cancel_code_const"))
+
+
+def apply_unconditional(F):
+    """Does AnalysisHost::apply_change reach Change::apply on every path? A skip is acceptable only behind
+    Change::is_empty, and only if is_empty looks at every field apply() consumes."""
+    ac = F.fn("ide::ide::AnalysisHost::apply_change")
+    ap = [b for b, t in ac.calls() if callee(t) == "ide::base::Change::apply"]
+    rets = ac.return_blocks()
+    unconditional = bool(ap) and all(ac.dominates(ap[0], r) for r in rets)
+    how = "Change::apply dominates every return"
+    if not unconditional and ap:
+        CH = "ide::base::Change"
+        gs = [g for r in rets if not ac.dominates(ap[0], r) for g in FL.gates(F, ac, [r])]
+        empties = [g for g in gs if (g.get("callee") or "").endswith("Change::is_empty") and g["allowed"] == [True]]
+        consumed = {e["field"] for e in EF.field_effects(F.fn("ide::base::Change::apply"), CH)}
+        looked = {e["field"] for e in EF.field_effects(F.fn("ide::base::Change::is_empty"), CH)}
+        unconditional = bool(empties) and consumed <= looked
+        how = "early return gated by %s; is_empty reads %s, apply consumes %s" % ([FL.gate_summary(g) for g in gs][:3], sorted(looked), sorted(consumed))
+    return unconditional, how
